@@ -115,7 +115,13 @@ fn cases(quick: bool) -> Vec<Case> {
 					for fill in fills {
 						let mut a = base.clone();
 						a.fill = *fill;
-						out.push(Case { abs: a, p: P { class: "history", ..Default::default() } });
+						out.push(Case { abs: a.clone(), p: P { class: "history", ..Default::default() } });
+						if *fill == Fill::A {
+							// the same history cut off before Game End, without metadata
+							a.ends = 0;
+							a.metadata = None;
+							out.push(Case { abs: a, p: P { class: "history-ends0", ..Default::default() } });
+						}
 					}
 				}
 			}
